@@ -1,6 +1,7 @@
 import ClaripyProofs.Lemmas.AST.RulesSound2
 import ClaripyProofs.Lemmas.AST.FoldSound
 import ClaripyProofs.Lemmas.AST.ACNormSoundB
+import ClaripyProofs.Lemmas.AST.BitsSound
 /-!
 # C01 — bit-vector and Boolean expressions mean exactly what the written operations say
 
@@ -74,6 +75,17 @@ example : bcEquiv .and (.app .and [.app .and [.bools "p", .boolv true], .app .an
     (.app .and [.bools "p", .bools "q"]) = true := by decide
 example : bcEquiv .or (.app .or [.bools "p", .boolv true, .bools "q"]) (.boolv true) = true := by decide
 example : bcEquiv .and (.app .and [.bools "p", .bools "q"]) (.bools "p") = false := by decide
+
+/-- Bit-rearranging rewrites (`Concat`, `Extract`, `ZeroExt`, `SignExt` over literals and arbitrary other terms: extract of
+concat, extract of extract, concat of adjacent extracts, extract of an extension, …): a rewrite accepted by the bit-level
+normal-form check `bitsEquiv` preserves the value of a well-typed expression.  Every width, every assignment. -/
+theorem C01_bits_rewrite_sound (lhs rhs : Expr) (h : bitsEquiv lhs rhs = true) (env : Env) (w n : Nat)
+    (hl : eval env lhs = .bv w n) : eval env rhs = eval env lhs := bitsEquiv_sound lhs rhs h env w n hl
+
+example : bitsEquiv (.app (.extract 11 4) [.app .concat [.bvs "x" 8, .bvs "y" 8]])
+    (.app .concat [.app (.extract 3 0) [.bvs "x" 8], .app (.extract 7 4) [.bvs "y" 8]]) = true := by decide
+example : bitsEquiv (.app (.extract 7 0) [.app (.zeroExt 8) [.bvs "x" 8]]) (.bvs "x" 8) = true := by decide
+example : bitsEquiv (.app (.extract 7 0) [.app .concat [.bvs "x" 8, .bvs "y" 8]]) (.bvs "x" 8) = false := by decide
 
 /-- the check is not vacuous: it accepts `(a ^ b) ^ (b ^ a) ⇒ 0` and `(a + 3) + (5 + b) ⇒ a + b + 8`, and rejects `a + b ⇒ a + c` -/
 example : acEquiv .bxor 8 (.app .bxor [.app .bxor [.bvs "a" 8, .bvs "b" 8], .app .bxor [.bvs "b" 8, .bvs "a" 8]]) (.bvv 0 8) = true := by
